@@ -390,6 +390,48 @@ func (w *world) exec(op string) {
 				w.out.Oracle(w.out.Lines, fmt.Sprintf("[snapshot-violated] case %d: GraphQL query inside transaction %s shows document %s with age %s, expected %s", w.caseID, t[1], l, got, want))
 			}
 		}
+	case "mkindex":
+		// a secondary index on `age` created inside the transaction: it must cover the transaction's view — the
+		// snapshot plus its own writes — and nothing committed by others since its start
+		ctx, _ := w.cctx(t[1])
+		if ctx == nil {
+			return
+		}
+		_, err := w.col.CreateIndex(ctx, client.IndexCreateRequest{Name: fmt.Sprintf("age_ix%d", w.stepNo), Fields: []client.IndexedFieldDescription{{Name: "age"}}})
+		if err != nil {
+			w.out.Oracle(w.out.Lines, fmt.Sprintf("[snapshot-violated] case %d: CreateIndex inside transaction %s failed: %v", w.caseID, t[1], err))
+		}
+		w.out.Emit(op, "ok")
+		w.out.Count("mkindex")
+	case "iquery":
+		// a request answered from the index on `age`
+		ctx, ts := w.cctx(t[1])
+		if ctx == nil {
+			return
+		}
+		res := w.n.DB.ExecRequest(ctx, `query { Doc(filter: {age: {_ge: 0}}) { name age } }`)
+		w.out.Emit(op, "ok")
+		if len(res.GQL.Errors) > 0 {
+			w.out.Oracle(w.out.Lines, fmt.Sprintf("[snapshot-violated] case %d: index-served query inside transaction %s fails: %v", w.caseID, t[1], res.GQL.Errors))
+			return
+		}
+		jb, _ := json.Marshal(res.GQL.Data)
+		var m map[string][]map[string]any
+		_ = json.Unmarshal(jb, &m)
+		all := map[string]string{}
+		for _, d := range m["Doc"] {
+			all[strings.TrimPrefix(fmt.Sprint(d["name"]), "doc")] = fmt.Sprint(d["age"])
+		}
+		for l := range w.docIDs {
+			got, ok := all[l]
+			if !ok {
+				got = "-"
+			}
+			if want := w.expectedView(ts, l); got != want {
+				w.out.Oracle(w.out.Lines, fmt.Sprintf("[snapshot-violated] case %d: index-served query inside transaction %s shows document %s with age %s, expected %s", w.caseID, t[1], l, got, want))
+			}
+		}
+		w.out.Count("iquery")
 	case "ids":
 		ctx, ts := w.cctx(t[1])
 		if ctx == nil {
@@ -753,6 +795,12 @@ func main() {
 	apiCase(out, caseID, []string{"set 0 1 10", "begin 1", "begin 2", "set 1 1 11", "set 2 1 12", "get 0 1", "commit 1", "get 2 1", "commit 2", "get 0 1"})
 	caseID++
 	apiCase(out, caseID, []string{"set 0 1 10", "begin 1", "set 1 1 11", "set 1 2 21", "get 0 2", "query 1", "discard 1", "get 0 1", "begin 2", "get 2 1", "set 0 1 15", "get 2 1", "query 2", "commit 2"})
+	caseID++
+	// an index created inside a transaction covers the transaction's view: its own earlier writes (and, after the
+	// commit, everybody sees them through the index), not what others committed after its start
+	apiCase(out, caseID, []string{"set 0 1 10", "begin 1", "set 1 2 21", "set 1 1 11", "mkindex 1", "iquery 1", "commit 1", "iquery 0", "get 0 2"})
+	caseID++
+	apiCase(out, caseID, []string{"set 0 1 10", "begin 1", "get 1 1", "set 0 2 20", "mkindex 1", "iquery 1", "query 1", "discard 1", "iquery 0"})
 	caseID++
 	for i := 0; i < nKV; i++ {
 		cr, _ := r.Fork()
